@@ -595,24 +595,32 @@ Qed.
 (* ------------------------------------------------------------------ *)
 (** * the shared result cache and the parallel root tasks *)
 
-(* the key of the engine's result cache: (position key, alpha, beta, remaining depth, side) *)
-Definition skey : Type := (N * Z * Z * nat * bool)%type.
-Definition mkkey (b : board) (alpha beta : Z) (d : nat) (mx : bool) : skey := (hash b, alpha, beta, d, mx).
+(* the key of the engine's result cache: (position key, alpha, beta, remaining depth, side,
+   half-move clock when the move-count draw is within the remaining depth and 0 otherwise) —
+   the last component since the repair of D13 (the position key does not cover the clock).
+   halfmove_clock() of the code panics on an empty clock stack; the key function here is total
+   (hd 0): every invariant under which the cache theorems are stated has a non-empty stack. *)
+Definition skey : Type := (N * Z * Z * nat * bool * N)%type.
+Definition clock_tag (b : board) (d : nat) : N :=
+  let c := hd 0 (hm_stack b) in if 100 <=? c + N.of_nat d then c else 0.
+Definition mkkey (b : board) (alpha beta : Z) (d : nat) (mx : bool) : skey :=
+  (hash b, alpha, beta, d, mx, clock_tag b d).
 Definition skey_eqb (x y : skey) : bool :=
   match x, y with
-  | (h, a, b, d, mx), (h', a', b', d', mx') =>
-      (h =? h') && (a =? a')%Z && (b =? b')%Z && Nat.eqb d d' && Bool.eqb mx mx'
+  | (h, a, b, d, mx, c), (h', a', b', d', mx', c') =>
+      (h =? h') && (a =? a')%Z && (b =? b')%Z && Nat.eqb d d' && Bool.eqb mx mx' && (c =? c')
   end.
 
 Lemma skey_eqb_true : forall x y, skey_eqb x y = true -> x = y.
 Proof.
-  intros [[[[h a] b] d] mx] [[[[h' a'] b'] d'] mx'] HE. unfold skey_eqb in HE.
+  intros [[[[[h a] b] d] mx] c] [[[[[h' a'] b'] d'] mx'] c'] HE. unfold skey_eqb in HE.
+  apply andb_true_iff in HE. destruct HE as [HE Hc].
   apply andb_true_iff in HE. destruct HE as [HE Hmx].
   apply andb_true_iff in HE. destruct HE as [HE Hd].
   apply andb_true_iff in HE. destruct HE as [HE Hb].
   apply andb_true_iff in HE. destruct HE as [Hh Ha].
   apply N.eqb_eq in Hh. apply Z.eqb_eq in Ha. apply Z.eqb_eq in Hb.
-  apply Nat.eqb_eq in Hd. apply eqb_prop in Hmx. subst. reflexivity.
+  apply Nat.eqb_eq in Hd. apply eqb_prop in Hmx. apply N.eqb_eq in Hc. subst. reflexivity.
 Qed.
 
 (* The one assumption about the cache key, stated about the model's own search: on Good
@@ -631,11 +639,11 @@ Lemma key_det_link : forall p a b d mx p' a' b' d' mx',
   mkkey p a b d mx = mkkey p' a' b' d' mx' -> gab d mx p a b = gab d' mx' p' a' b'.
 Proof.
   intros p a b d mx p' a' b' d' mx' HG HG' Hd Hd' HE. unfold mkkey in HE.
-  assert (Hh : hash p = hash p') by exact (f_equal (fun k : skey => fst (fst (fst (fst k)))) HE).
-  assert (Ha : a = a') by exact (f_equal (fun k : skey => snd (fst (fst (fst k)))) HE).
-  assert (Hb : b = b') by exact (f_equal (fun k : skey => snd (fst (fst k))) HE).
-  assert (Hdd : d = d') by exact (f_equal (fun k : skey => snd (fst k)) HE).
-  assert (Hmx : mx = mx') by exact (f_equal (fun k : skey => snd k) HE).
+  assert (Hh : hash p = hash p') by exact (f_equal (fun k : skey => fst (fst (fst (fst (fst k))))) HE).
+  assert (Ha : a = a') by exact (f_equal (fun k : skey => snd (fst (fst (fst (fst k))))) HE).
+  assert (Hb : b = b') by exact (f_equal (fun k : skey => snd (fst (fst (fst k)))) HE).
+  assert (Hdd : d = d') by exact (f_equal (fun k : skey => snd (fst (fst k))) HE).
+  assert (Hmx : mx = mx') by exact (f_equal (fun k : skey => snd (fst k)) HE).
   subst a' b' d' mx'.
   assert (HD : N.of_nat d <= D) by lia.
   exact (key_det_chess p p' a b d mx _ _ HG HG' HD Hh
